@@ -485,6 +485,44 @@ def lookup_continues(ctx, rule, qn, key_param_index):
     if n == 0:
         ctx.ob(rule, qn, 'return-only-when-found', False,
                'no lookup loop with a return found in %s' % qn)
+    # a lookup that NAMES an interface never answers from another one
+    iface = ('param', fi.params()[1])
+
+    def nested(ev, outer):
+        for bp in ev[4]:
+            full = outer + tuple(bp.cond)
+            yield bp, full
+            for e2 in bp.trace:
+                if e2[0] == 'loop':
+                    for x in nested(e2, full):
+                        yield x
+    m = 0
+    for p in it.run(fi):
+        for ev in p.trace:
+            if ev[0] != 'loop':
+                continue
+            for bp, full in nested(ev, tuple(p.cond)):
+                if bp.outcome != 'return' or (iface, True) not in full or \
+                        (iface, False) in full:
+                    continue        # (the latter: a combination of the
+                    #                 function path with a body path of
+                    #                 another iteration shape - infeasible)
+                m += 1
+                v = bp.value
+                from_named = contains(
+                    v, lambda x: (kind(x) == 'sub' and x[2] == iface) or
+                    (kind(x) == 'call' and kind(x[2]) == 'attr' and
+                     x[2][2] == 'get' and x[3] and x[3][0] == iface))
+                ctx.ob(rule, qn, 'named-interface-only', from_named,
+                       'the lookup was given an interface name but on this '
+                       'path answers with %s, an entry that is not the one '
+                       'of that interface: a member of the same name on '
+                       'ANOTHER interface is bound and run instead'
+                       % term_str(v)[:70])
+    if m == 0:
+        ctx.ob(rule, qn, 'named-interface-only', False,
+               'no path of %s looks the member up under the given '
+               'interface name' % qn)
 
 
 def _all_body_paths(ev):
